@@ -98,6 +98,12 @@ def payload_forms(rnd):
         # not syntactically evident => unknown
         ("call-result", "", "make_foo()", "", None),
         ("method-result", "", "p.to_summary()", "p: Foo", None),
+        # calls through a path: what they return is not written at the call site either
+        ("associated-fn-call-result", "", "Foo::load()", "", None),
+        ("qualified-fn-call-result", "", "crate::state::current()", "", None),
+        ("std-associated-fn-call-result", "", "Vec::from([1, 2])", "", None),
+        ("turbofish-call-result", "", "Vec::<Foo>::new()", "", None),
+        ("default-call-result", "", "Default::default()", "", None),
         ("tuple-expr", "", "(1, 2)", "", None),
         ("enum-path", "", "Kind::Alpha", "", None),
         ("macro-result", "", 'format!("x{}", 1)', "", None),
